@@ -666,11 +666,13 @@ pub struct Extra {
     pub violations: Vec<(String, Value)>,
     pub known: Vec<(String, String, u64)>, // (finding id, description, count)
     pub tables: Vec<Value>,
+    /// notes computed after the exploration (e.g. counters gathered by the cells)
+    pub late_notes: Vec<Box<dyn Fn() -> String + Send + Sync>>,
 }
 
 impl Default for Extra {
     fn default() -> Self {
-        Extra { states: 0, transitions: 0, validated: 0, nontrivial: 0, samples: vec![], notes: vec![], violations: vec![], known: vec![], tables: vec![] }
+        Extra { states: 0, transitions: 0, validated: 0, nontrivial: 0, samples: vec![], notes: vec![], violations: vec![], known: vec![], tables: vec![], late_notes: vec![] }
     }
 }
 
@@ -852,7 +854,7 @@ pub fn run_cells(cfg: &Cfg, cells: Vec<CellDef>, extra: Extra, rep: Report) -> i
             "masked_cells": masked,
             "known_findings_matched": known_tot.iter().map(|(k, v)| json!({"finding": k, "cases": v})).collect::<Vec<_>>(),
             "build_profile": cfg.profile,
-            "notes": extra.notes,
+            "notes": extra.notes.iter().cloned().chain(extra.late_notes.iter().map(|f| f())).collect::<Vec<String>>(),
         },
         "assumptions": rep.assumptions,
         "wall_s": (t0.elapsed().as_secs_f64() * 100.0).round() / 100.0,
